@@ -156,10 +156,47 @@ func c03AnalyseCounterFlow(p *Prog, fn *ssa.Function) c03CounterFlow {
 	}
 	follow := func(c ssa.CallInstruction) *ssa.Function {
 		g := staticCallee(c)
-		if g == nil || c.Common().IsInvoke() || len(g.Blocks) == 0 || !p.InModule(g) {
+		if g == nil || c.Common().IsInvoke() || len(g.Blocks) == 0 {
+			return nil
+		}
+		if !p.InModule(g) && !strings.Contains(g.Synthetic, "wrapper") && !strings.Contains(g.Synthetic, "thunk") {
 			return nil
 		}
 		return g
+	}
+	// every same-module function reachable from fn is analysed: statically called ones (the
+	// rounds may live in a phase helper that receives no counter), closures, and functions whose
+	// address is taken there (method values, func-typed fields, table elements); a call through
+	// a function value hands its loop-variant arguments to every such function of that signature
+	var taken []*ssa.Function
+	for k := 0; k < len(fset) && len(fset) < 200; k++ {
+		allInstrs(fset[k], func(in ssa.Instruction) {
+			if c, ok := in.(ssa.CallInstruction); ok {
+				if g := follow(c); g != nil {
+					addFn(g)
+					addAnon(g)
+				}
+			}
+			for _, op := range in.Operands(nil) {
+				if op == nil || *op == nil {
+					continue
+				}
+				var g *ssa.Function
+				switch v := (*op).(type) {
+				case *ssa.Function:
+					g = origin(v)
+				case *ssa.MakeClosure:
+					g, _ = v.Fn.(*ssa.Function)
+				}
+				if g != nil && len(g.Blocks) > 0 && (p.InModule(g) || strings.Contains(g.Synthetic, "wrapper") || strings.Contains(g.Synthetic, "thunk")) {
+					if c, isCall := in.(ssa.CallInstruction); !isCall || c.Common().Value != *op {
+						taken = append(taken, g)
+					}
+					addFn(g)
+					addAnon(g)
+				}
+			}
+		})
 	}
 	for iter := 0; changed && iter < 64; iter++ {
 		changed = false
@@ -176,6 +213,24 @@ func c03AnalyseCounterFlow(p *Prog, fn *ssa.Function) c03CounterFlow {
 				case ssa.CallInstruction:
 					g := follow(i)
 					if g == nil {
+						if cc := i.Common(); !cc.IsInvoke() && staticCallee(i) == nil {
+							if _, isB := cc.Value.(*ssa.Builtin); !isB {
+								for _, t := range taken {
+									ps := t.Params
+									if t.Signature.Recv() != nil && len(ps) > 0 {
+										ps = ps[1:]
+									}
+									if !types.Identical(t.Signature.Params(), cc.Signature().Params()) || len(ps) != len(cc.Args) {
+										continue
+									}
+									for k, a := range cc.Args {
+										if d, lv := get(a); lv {
+											set(ps[k], d)
+										}
+									}
+								}
+							}
+						}
 						return
 					}
 					cc := i.Common()
@@ -335,6 +390,15 @@ func c03AnalyseCounterFlow(p *Prog, fn *ssa.Function) c03CounterFlow {
 				if g := follow(i); g != nil && inSet[g] {
 					return // followed into the callee
 				}
+				if !cc.IsInvoke() && staticCallee(i) == nil {
+					if _, isB := cc.Value.(*ssa.Builtin); !isB {
+						for _, t := range taken {
+							if types.Identical(t.Signature.Params(), cc.Signature().Params()) {
+								return // handed to the visible targets of that signature
+							}
+						}
+					}
+				}
 				for _, a := range cc.Args {
 					d, lv := get(a)
 					if !lv {
@@ -401,6 +465,8 @@ func c03CheckCounterEncoding(p *Prog, r *Report, rule, construct string, fn *ssa
 	switch {
 	case len(fl.LittleEndian) > 0:
 		r.Violation(rule, construct, pos, "the step counter is serialised little-endian ("+fl.LittleEndian[0]+"); RFC 3394 XORs the 64-bit big-endian encoding of t into A, so every output differs from the standard", fl.LittleEndian...)
+	case fl.Coverage&want == want:
+		r.OK(rule, construct, pos, "the loop counter reaches a big-endian encoding with at least its low "+fmt.Sprint(need)+" bits: "+strings.Join(fl.Sinks, "; "))
 	case len(fl.Unclassified) > 0:
 		r.Undecide("%s %s: a loop counter leaves integer arithmetic in a way the analysis does not classify (%s)", rule, construct, fl.Unclassified[0])
 		r.Trivial(rule, construct, pos, "undecided (unclassified flow)")
